@@ -230,6 +230,11 @@ def run_penalty(rng, obs):
     pt = None
     if ptype is not None:
         pt = [[getattr(mp, ptype + '_inequality')] * len(conds[0]), [getattr(mp, ptype + '_equality')] * len(conds[1])]
+    # join=: the per-line penalties combined by a coupler (and_: their sum, or_: the smallest of them) instead of being stacked
+    join = rng.choice([None, None, None, 'and_']) if 'groups' not in obs.desc else None
+    if join:
+        import mystic.coupler as mcp
+        kw['join'] = getattr(mcp, join); obs.desc['join'] = join; obs.event('joined_penalties')
     try:
         pen = generate_penalty(conds, pt, **kw) if pt is not None else generate_penalty(conds, **kw)
     except Exception as e:
@@ -238,22 +243,26 @@ def run_penalty(rng, obs):
     fam = ptype or 'quadratic'
     K = ({'quadratic': 100, 'linear': 100, 'uniform': float('inf')}[fam]) if k is None else k
     total, anyviol, allsat, flags, active = 0.0, False, True, [], False
+    terms = []
     for (l, c, r) in vals:
         kind, w = expected_condition(l, c, r)
-        total += line_term(fam, kind, w, K)
+        total += line_term(fam, kind, w, K); terms.append(line_term(fam, kind, w, K))
         viol = (w > 0) if kind == 'ineq' else (w != 0)
         flags.append(viol)
         if w == 0: active = True
         anyviol |= viol; allsat &= not viol
+    if join == 'or_':
+        total = min(terms)
+        allsat = total == 0; anyviol = total > 0
     same = (got == total) if not math.isfinite(total) else (close(got, total, 1e-9) or abs(got - total) <= 1e-9 * (1 + abs(total)))
     obs.check(same, 'pen:penalty equals the documented sum of per-line terms', text=text, x=x, k=K, ptype=ptype, observed=got, expected=total,
-              some_line_exactly_active=active)
+              some_line_exactly_active=active, join=join)
     if allsat:
         obs.check(got == 0.0, 'pen:penalty is zero where every line holds', text=text, x=x, observed=got, ptype=ptype, some_line_exactly_active=active)
     elif total > 1e-200:
         obs.check(got > 0.0, 'pen:penalty is positive where some line is violated', text=text, x=x, observed=got, expected=total, ptype=ptype)
     # iteration state: h^n growth
-    if hasattr(pen, 'iter') and total > 0 and math.isfinite(total):
+    if hasattr(pen, 'iter') and total > 0 and math.isfinite(total) and not join:
         pen.iter()
         H = 5 if h is None else h
         got2 = float(pen(list(x)))
